@@ -1514,6 +1514,27 @@ where
             }
             pool.ban(&address, BanReason::AdminBan(duration_seconds), None);
             res.put(data_row(&vec!["""),
+    dict(id="c07-failure-replaces-a-running-admin-ban", prop="C07", file="src/pool.rs", expect="C07-R1",
+         what="ban() inserts whatever the list holds (D89 again)",
+         old="""                if now.timestamp() - since.timestamp() <= *duration {
+                    return;
+                }""", new="""                if now.timestamp() - since.timestamp() <= *duration {
+                    debug!("replacing the admin ban of {:?}", address);
+                }"""),
+    dict(id="c07-admin-ban-kept-whatever-its-age", prop="C07", file="src/pool.rs", expect="C07-R1",
+         what="an AdminBan entry is kept without looking at its age (a lapsed, uncollected admin ban swallows a new failure)",
+         old="""            if let Some((BanReason::AdminBan(duration), since)) = guard[address.shard].get(address) {
+                if now.timestamp() - since.timestamp() <= *duration {
+                    return;
+                }
+            }""", new="""            if let Some((BanReason::AdminBan(_), _)) = guard[address.shard].get(address) {
+                return;
+            }"""),
+    dict(id="c07-second-admin-ban-ignored", prop="C07", file="src/pool.rs", expect="C07-R1",
+         what="the keep exit is also taken by a new AdminBan (a second, longer BAN is ignored)",
+         old="""        if !matches!(reason, BanReason::AdminBan(_)) {
+            if let Some((BanReason::AdminBan(duration), since))""", new="""        if !matches!(reason, BanReason::FailedCheckout) {
+            if let Some((BanReason::AdminBan(duration), since))"""),
     # ------------------------------------------------------------------ C11
     dict(id="c11-inline-client", prop="C11", file="src/main.rs", expect="C11-R1",
          what="client handled inline in the accept loop instead of its own task",
